@@ -12,6 +12,16 @@ def run(tier):
     r = vf.tlc("MC_Raster", cfg, workers=8, gc="parallel", heap="8g", tag="MC_RasterI")
     chk.add_mc("MC_Raster/Interp", r, {"G": 2})
     (n1, f1, _), (n2, f2, _) = c04.raster_pipeline(chk, tier, "TV_RasterFrag", "C05")
+    # growth beyond the statement (DESIGN §8): the Vary stepping iterators the rasteriser is built on;
+    # rejections there are notes, not violations of C05
+    cfgv = vf.write_cfg(os.path.join(d, "MC_Vary.cfg"), None, invariants=["Laws"])
+    rv = vf.tlc("MC_Vary", cfgv, workers=2, gc="parallel")
+    chk.add_mc("MC_Vary (extra coverage)", rv, {})
+    vcases = os.path.join(d, "vary.ndjson")
+    binpath = vf.build_harness()
+    vf.run_harness(binpath, ["vary", "gen", "--seed", vf.seed(), "--tier", tier], stdout_path=vcases)
+    nv, _, badv = vf.exec_and_validate(chk, binpath, "vary", "TV_Vary", vcases, jvms=4, what="vary call", as_notes=True)
+    chk.cov["extra_coverage"] = {"vary_calls_validated": nv, "vary_calls_rejected": len(badv)}
     chk.cov["traces_validated_against_impl"] = n1 + n2
     chk.cov["fragments_judged"] = f1 + f2
     chk.cov["evaluations"] = f1 + f2
